@@ -433,6 +433,10 @@ def constrained():
     out.append((dict(rec2, violating=[{'a': 6, 'b': True}]), {'a': 5, 'b': False}))
     rec3 = T('SET', fields=[('a', T('INTEGER'), 'opt'), ('b', T('BOOLEAN', [('I', CTX, 0)]), 'opt')], absent=['b'])
     out.append((dict(rec3, violating=[{'b': True}, {'a': 1, 'b': False}]), {'a': 1}))
+    # SIZE on a record counts the members that are present (not the slots reads have touched)
+    rec4 = T('SEQUENCE', fields=[('x', T('INTEGER'), 'opt'), ('y', T('INTEGER', [('I', CTX, 0)]), 'opt')], size=(1, 1))
+    out.append((dict(rec4, violating=[{}, {'x': 1, 'y': 2}]), {'x': 1}))
+    out.append((dict(rec4, violating=[{}]), {'y': 5}))
     # a CHOICE with a constraint of its own: one alternative may not be chosen
     ch2 = T('CHOICE', fields=[('a', T('INTEGER'), 'req'), ('b', T('BOOLEAN'), 'req')], absent=['a'])
     out.append((dict(ch2, violating=[('a', 5)]), ('b', True)))
